@@ -1927,3 +1927,24 @@ func (t *Terminal) Dump() string {
 	}
 	return sb.String()
 }
+
+// ModeTable returns every piece of terminal state an application can change
+// and is expected to restore, in comparable form.
+func (t *Terminal) ModeTable() map[string]string {
+	m := map[string]string{}
+	for k, v := range t.Modes {
+		if v {
+			m[fmt.Sprintf("mode:%d", k)] = "set"
+		}
+	}
+	m["keypad-application"] = fmt.Sprint(t.KeypadApp)
+	m["kitty-keyboard"] = fmt.Sprintf("flags=%d stack=%v", t.KittyFlags, t.KittyStack)
+	m["cursor-visible"] = fmt.Sprint(t.CursorVisible)
+	m["cursor-shape"] = fmt.Sprint(t.CursorShape)
+	m["pointer-shape"] = t.PointerShape
+	m["app-id"] = t.AppID
+	m["pen"] = t.Pen.String()
+	m["alternate-screen"] = fmt.Sprint(t.AltActive)
+	m["sync-depth"] = fmt.Sprint(t.SyncDepth)
+	return m
+}
